@@ -345,6 +345,9 @@ func (engine) Body(r *simdrv.Run) {
 	dropped := w.loggedDrops + residual
 	r.Res.Config["dropped"] = dropped
 
+	if r.Res.Outcome == "harness-panic" {
+		return // the simulator lost track of the system: reported as harness trouble, never as a violation
+	}
 	switch out.Kind {
 	case simrt.Budget:
 		return
